@@ -168,6 +168,6 @@ class udp(packet_base):
         elif ip_ver == 6:
             ph = self.prev.srcip.raw + self.prev.dstip.raw
             ph += struct.pack('!IHBB', payload_len, 0, 0,
-                              self.prev.next_header_type)
+                              self.prev.payload_type)
             r = checksum(ph + payload, 0, 23)
             return 0xffff if r == 0 else r
